@@ -183,6 +183,40 @@ def check(ctx):
                 ctx.violation("%s indels=%s: %s" % (spec.typ, ad.indels, why.split(" (")[0].split(" [")[0][:60]),
                               {"adapter": spec.to_json(), "read": read, "observed": U.match_tuple(mt), "why": why,
                                "reproduce": "cd /verif && ./check replay <this file>"})
+    # ---- anchored adapters given together are searched through the adapter index (the default at the command line): an
+    # error-free copy of one of them at the anchored end, where no other adapter of the set occurs within its tolerance, is
+    # removed exactly -- also when the read is nothing but the adapter
+    from . import c08
+    import logging
+
+    logging.disable(logging.WARNING)
+    try:
+        for _ in range(ctx.size(80, 1500)):
+            aset = c08.rand_adapter_set(rng)
+            try:
+                objs, idx = c08.impl_index(aset)
+            except Exception:
+                continue
+            for i, a in enumerate(aset["adapters"]):
+                for tail in ("", U.rand_seq(rng, 1, "ACGT"), U.rand_seq(rng, rng.choice([2, 5, 9]), "ACGT")):
+                    read = a["seq"] + tail if aset["prefix"] else tail + a["seq"]
+                    if set(c08.occurrences(aset, read)) != {i}:
+                        continue
+                    try:
+                        res = c08.mt(objs, idx.match_to(read))
+                    except Exception as e:
+                        res = ("raises %s" % type(e).__name__,)
+                    L, n = len(a["seq"]), len(read)
+                    want = (i, 0, L, 0) if aset["prefix"] else (i, n - L, n, 0)
+                    ctx.count(("indexed-exact", json.dumps(aset, sort_keys=True), read), True)
+                    dist["indexed anchored exact copy"] = dist.get("indexed anchored exact copy", 0) + 1
+                    if res is None or tuple(res[:4]) != want:
+                        ctx.violation("anchored exact copy not removed exactly (adapter index in use)",
+                                      {"aset": aset, "read": read, "observed": None if res is None else list(res), "expected": list(want),
+                                       "why": "adapter %d of the set occurs without errors at the anchored end of %r and no other adapter occurs within its tolerance; "
+                                              "the indexed search reports %r" % (i, read, res), "indexed": True})
+    finally:
+        logging.disable(logging.NOTSET)
     mod = core.model_run(lines) if model_ok else [None] * len(lines)
     bad = core.diff_cases(ctx, "match_to[with prefilter]", meta, impl_out, mod, None)
     for i in bad[:10]:
@@ -201,6 +235,14 @@ def check(ctx):
 
 def replay(doc):
     r = doc["replay"]
+    if r.get("indexed"):
+        from . import c08
+        buildimpl.activate()
+        objs, idx = c08.impl_index(r["aset"])
+        res = c08.mt(objs, idx.match_to(r["read"]))
+        ok = res is not None and list(res[:4]) == list(r["expected"])
+        print("adapter set", r["aset"], "read", r["read"], "->", res, "| expected", r["expected"], "|", "property holds on this input" if ok else "exact copy not removed exactly")
+        return 0 if ok else 1
     if "adapter" not in r:
         print(r)
         return 0
